@@ -372,7 +372,7 @@ def run(tier, seed):
   # one-element channels keep all five refinement rounds but have a single symbolic input; two-element channels are thorough-only
   # (a bound of exactly 0 is a bound: the second configuration keeps a lower bound of 0 and no upper bound)
   po2s = [("quantized_bits", dict(bits=4, integer=0, alpha="auto_po2"), (2, 1)),
-          ("quantized_bits", dict(bits=4, integer=0, alpha="auto_po2", min_po2_exponent=0), (2, 1))]
+          ("quantized_bits", dict(bits=4, integer=1, alpha="auto_po2", min_po2_exponent=0), (2, 1))]
   if tier == "thorough":
     po2s += [("quantized_bits", dict(bits=4, integer=0, alpha="auto_po2", min_po2_exponent=-3, max_po2_exponent=1), (2, 1)),
              ("quantized_bits", dict(bits=4, integer=0, alpha="auto_po2", max_po2_exponent=0), (2, 1)),
